@@ -17,6 +17,7 @@ import (
 	"strings"
 	"time"
 
+	"golang.org/x/tools/go/callgraph"
 	"golang.org/x/tools/go/packages"
 	"golang.org/x/tools/go/ssa"
 	"golang.org/x/tools/go/ssa/ssautil"
@@ -45,6 +46,7 @@ type Ctx struct {
 	cgCache map[*ssa.Function][]*ssa.Function
 	provBusy map[provKey]bool
 	libraryIndexed map[*ssa.Function]bool
+	vtaG *callgraph.Graph
 }
 
 // LoadOpts selects the build configuration and an optional overlay.
